@@ -89,7 +89,7 @@ def plain(prog):
                     s += p
                 if it.get('dflt') and it['params']:
                     s += '='
-                    _occ(occs, it['dflt'], 'use', ln, len(s))
+                    _occ(occs, it['dflt'], 'dflt', ln, len(s))
                     s += it['dflt']
                 s += ': '
                 _occ(occs, it['x'], 'use', ln, len(s))
@@ -106,7 +106,7 @@ def plain(prog):
                     s += p
                 if it.get('dflt') and it['params']:
                     s += '='
-                    _occ(occs, it['dflt'], 'use', ln, len(s))
+                    _occ(occs, it['dflt'], 'dflt', ln, len(s))
                     s += it['dflt']
                 s += ': '
                 _occ(occs, it['x'], 'use', ln, len(s))
@@ -177,8 +177,7 @@ def executable(prog):
                     lines.append('%sdef %s(%s):' % (pad, it['name'], ps))
                     # parameters are rebound to tokens naming the parameter occurrence
                     for p, pi in zip(it['params'], pids):
-                        lines.append('%s    %s = (%r, %d) if isinstance(%s, tuple) and %s[0] == "<arg>" else %s'
-                                     % (pad, p, p, pi, p, p, p))
+                        lines.append('%s    %s = (%r, %d)' % (pad, p, p, pi))
                     emit(it['body'], ind + 1)
                     lines.append('%s%s.__occ__ = %d' % (pad, it['name'], i))
                 else:
@@ -255,9 +254,9 @@ def run_executable(prog, occs):
         _u(i, v)
         return v
     def _tok(v, name, pid):
-        if isinstance(v, tuple) and v and v[0] == '<arg>':
-            return (name, pid)
-        return v
+        # whatever reaches a parameter (an argument marker or a default value) is read through
+        # the parameter: a use of the parameter sees the parameter's own token
+        return (name, pid)
 
     def _abort(i):
         # an assignment whose right-hand side is unbound: the real program stops here with
@@ -408,7 +407,7 @@ def enumerate_small(max_items, names=('a', 'b'), allow_def=True):
 # ------------------------------------------------------------------ flat table for the Lean model
 
 KINDS = {'module': 0, 'function': 1, 'class': 2, 'lambda': 3, 'comp': 4}
-ROLES = {'bind': 0, 'use': 1, 'global': 2, 'nonlocal': 3, 'param': 4, 'def': 5}
+ROLES = {'bind': 0, 'use': 1, 'global': 2, 'nonlocal': 3, 'param': 4, 'def': 5, 'dflt': 6}
 
 
 def flat(prog):
@@ -453,8 +452,9 @@ def flat(prog):
                 for p in it['params']:
                     occs.append([nm(p), ROLES['param'], t, len(occs)])
                 if it.get('dflt') and it['params']:
-                    # a use in the ENCLOSING scope, looked up from the start of the lambda
-                    occs.append([nm(it['dflt']), ROLES['use'], s, first])
+                    # Python: a use in the ENCLOSING scope; jedi: looked up from the lambda's OWN
+                    # context, limited to the start of the lambda (model role dfltUse)
+                    occs.append([nm(it['dflt']), ROLES['dflt'], t, first])
                 occs.append([nm(it['x']), ROLES['use'], t, len(occs)])
             elif k == 'lamdef':
                 occs.append([nm(it['name']), ROLES['bind'], s, len(occs)])
@@ -464,8 +464,9 @@ def flat(prog):
                 for p in it['params']:
                     occs.append([nm(p), ROLES['param'], t, len(occs)])
                 if it.get('dflt') and it['params']:
-                    # a use in the ENCLOSING scope, looked up from the start of the lambda
-                    occs.append([nm(it['dflt']), ROLES['use'], s, first])
+                    # Python: a use in the ENCLOSING scope; jedi: looked up from the lambda's OWN
+                    # context, limited to the start of the lambda (model role dfltUse)
+                    occs.append([nm(it['dflt']), ROLES['dflt'], t, first])
                 occs.append([nm(it['x']), ROLES['use'], t, len(occs)])
             elif k == 'comp':
                 scopes.append([KINDS['comp'], s, -1])
